@@ -37,6 +37,7 @@ theorem step_frame {s : Node} {c : Nat} {x : Conn} (hx : s.conns[c]? = some x) (
       | .leaderMsg d _ _ => d ≠ c
       | .linkDown d => d ≠ c
       | .role _ => True
+      | .unattached _ => True
       | .leader _ => False
       | .close d => d ≠ c) :
     (step s e).1.conns[c]? = some x := by
@@ -44,6 +45,7 @@ theorem step_frame {s : Node} {c : Nat} {x : Conn} (hx : s.conns[c]? = some x) (
   cases e with
   | accept k => simp only [step]; rw [List.getElem?_append_left hlt]; exact hx
   | role r => simpa [step] using hx
+  | unattached d => simpa [step] using hx
   | leader a => exact absurd h id
   | request d short q =>
     simp only [step, stepRequest]
@@ -95,6 +97,7 @@ theorem keepB_step {s : Node} {c : Nat} {x : Conn} (hx : s.conns[c]? = some x) (
   cases e with
   | accept k => exact ⟨x, step_frame hx _ trivial, hk⟩
   | role r => exact ⟨x, step_frame hx _ trivial, hk⟩
+  | unattached d => exact ⟨x, step_frame hx _ trivial, hk⟩
   | leader a => exact absurd hq id
   | linkDown d => exact ⟨x, step_frame hx (.linkDown d) hq, hk⟩
   | close d => exact ⟨x, step_frame hx (.close d) hq, hk⟩
@@ -132,6 +135,7 @@ theorem keepT_step {s : Node} {c rid : Nat} {md : TextMode} {x : Conn} (hx : s.c
   cases e with
   | accept k => exact ⟨x, step_frame hx _ trivial, k1, k2, k3, k4, k5⟩
   | role r => exact ⟨x, step_frame hx _ trivial, k1, k2, k3, k4, k5⟩
+  | unattached d => exact ⟨x, step_frame hx _ trivial, k1, k2, k3, k4, k5⟩
   | leader a => exact absurd hq id
   | linkDown d => exact ⟨x, step_frame hx (.linkDown d) hq, k1, k2, k3, k4, k5⟩
   | close d => exact ⟨x, step_frame hx (.close d) hq, k1, k2, k3, k4, k5⟩
